@@ -13,6 +13,11 @@ SCHEMAS = [
     'struct I { y @1: u4, x @0: u2, }\nstruct A { p @0: u1, i @1: I, q @2: u3, }\nimpl can for A { id: 1, }',
     'struct A { p @0: u1, arr @1: [u3, 4], q @2: u3, }\nimpl can for A { id: 1, }',
     'struct I { x @0: u2, y @1: i3, }\nstruct A { arr @0: [I, 2], q @1: u3, }\nimpl can for A { id: 1, }',
+    # two bindings of one struct with different per-signal options, laid out by the same encoder
+    'struct A { a @0: u8, b @1: u16, }\nimpl can for A as X { id: 1, signal b { endianess: "big", }, }\nimpl can for A as Y { id: 2, signal a { mux_count: 2, }, }',
+    # enums whose largest value is beyond the exact range of a double (width must come from integer bit length)
+    'enum E { X = 0, Y = 9007199254740993, }\nstruct A { e @0: E, b @1: u3, }\nimpl can for A { id: 1, }',
+    'enum E { X = 0, Y = 4503599627370497, }\nstruct A { p @0: u2, e @1: E, b @2: u3, }\nimpl can for A { id: 1, }',
     # declaration orders that differ from id order: a 3-cycle (differs from its inverse), and inside array elements
     'struct A { c @2: u1, a @0: u9, b @1: u4, }\nimpl can for A { id: 1, }',
     'struct I { y @1: i3, z @2: u5, x @0: u2, }\nstruct A { q @1: u3, arr @0: [I, 2], }\nimpl can for A { id: 1, }',
